@@ -396,4 +396,42 @@ theorem globalLayout_spec {L G : Layout} {tile g : List Nat} (hF : TileFacts L t
         intro idx idx' h h' heq
         exact hI.inj idx idx' (inbox_of_inshape hcov h) (inbox_of_inshape hcov h') heq
 
+
+/-! ## with fix FC12e: the guard establishes the `tileDivides` clause -/
+
+theorem tileDividesB_spec : ∀ (L : Layout) (g : List Nat), tileDividesB L g = true →
+    ∀ (d : Nat) (l : List Stride) (n : Nat), L[d]? = some l → g[d]? = some n → prodB l ∣ n
+  | [], _, _, d, l, n, hl, _ => by simp at hl
+  | _ :: _, [], _, d, l, n, _, hn => by simp at hn
+  | l0 :: L, n0 :: g, h, d, l, n, hl, hn => by
+    simp only [tileDividesB, List.zip_cons_cons, List.all_cons, Bool.and_eq_true, decide_eq_true_eq] at h
+    cases d with
+    | zero =>
+      simp at hl hn; subst hl hn
+      exact Nat.dvd_of_mod_eq_zero h.1
+    | succ d =>
+      simp at hl hn
+      exact tileDividesB_spec L g h.2 d l n hl hn
+
+/-- **the global's layout, repaired code**: whenever the pattern fires, the layout of the whole global
+covers exactly the global's shape and is one-to-one on it — no side condition -/
+theorem globalLayoutFixed_spec {L G : Layout} {tile g : List Nat} {offs : List (Option Nat)}
+    (hF : TileFacts L tile) (hg : globalLayoutFixed L g offs = .ok (some G)) :
+    Covers G g ∧ InjectiveOn G g := by
+  unfold globalLayoutFixed at hg
+  split at hg
+  · cases hg
+  · split at hg
+    · cases hg
+    · split at hg
+      · cases hg
+      · rename_i hguard
+        simp only [Bool.or_eq_true, Bool.not_eq_true', not_or, Bool.not_eq_false] at hguard
+        apply globalLayout_spec hF hg
+        intro d t n ht hn
+        have hd : d < L.length := by rw [hF.cov.1]; exact lt_length_of_getElem? ht
+        have hL : L[d]? = some L[d] := List.getElem?_eq_getElem hd
+        rw [← hF.cov.2 d L[d] t hL ht]
+        exact tileDividesB_spec L g hguard.1 d L[d] n hL hn
+
 end SnaxVerif.CyclicLayout
